@@ -23,9 +23,12 @@ SHAPES = {
     # branch: first state chooses; both arms timed
     "branch": [("s0", None, None, True), ("l", 0.5, "e", False), ("r", 0.25, "e", False), ("e", None, None, False)],
     "inherit": [("s0", None, None, True), ("s1", 1.0, "s2", False), ("s2", 0.5, None, False)],
+    # integer literals in the decorators (the dashboard still holds doubles), and a timed state whose next_state is itself
+    "intdur": [("a", 1, "b", True), ("b", 2, None, False)],
+    "selfloop": [("p", 0.5, "p", True)],
 }
 # "inherit": the chain's states live in a base class, the concrete mode only adds the last one
-TARGETS = {"inherit": ["s1", "s2"], "chain": ["s1", "s2"], "loop": ["a", "b"], "tchain": ["b", "a"], "branch": ["l", "r"]}
+TARGETS = {"intdur": ["a", "b"], "selfloop": ["p"], "inherit": ["s1", "s2"], "chain": ["s1", "s2"], "loop": ["a", "b"], "tchain": ["b", "a"], "branch": ["l", "r"]}
 _ID = [0]
 
 
@@ -92,6 +95,7 @@ def run(c, job):
     cfg = job["cfg"]
     shape = job["shape"]
     if world.is_sym():
+        sx.install_shadows()
         import wpilib
 
         ntcore.reset()
@@ -266,10 +270,11 @@ class C15(Spec):
 
     def jobs(self, tier):
         if tier == "quick":
-            return [mkjob("inherit", 5, 1, variant=2), mkjob("inherit", 3, 1, periods=2, variant=3), mkjob("chain", 5, 2), mkjob("loop", 5, 1), mkjob("tchain", 5, 1), mkjob("branch", 4, 2),
+            return [mkjob("intdur", 5, 0, variant=1), mkjob("selfloop", 6, 1, variant=2), mkjob("selfloop", 3, 0, periods=2), mkjob("inherit", 5, 1, variant=2), mkjob("inherit", 3, 1, periods=2, variant=3), mkjob("chain", 5, 2), mkjob("loop", 5, 1), mkjob("tchain", 5, 1), mkjob("branch", 4, 2),
                     mkjob("chain", 3, 2, periods=2, variant=1), mkjob("loop", 3, 1, periods=2, variant=2),
                     mkjob("tchain", 3, 1, periods=2, variant=3)]
-        return [mkjob("inherit", 7, 2, variant=1), mkjob("inherit", 4, 2, periods=3, variant=4), mkjob("chain", 7, 2, variant=1), mkjob("loop", 8, 2, variant=2), mkjob("tchain", 8, 1, variant=3), mkjob("branch", 6, 2, variant=4),
+        return [mkjob("intdur", 7, 1, variant=1), mkjob("intdur", 4, 1, periods=2), mkjob("selfloop", 8, 2, variant=2), mkjob("selfloop", 4, 1, periods=3),
+                mkjob("inherit", 7, 2, variant=1), mkjob("inherit", 4, 2, periods=3, variant=4), mkjob("chain", 7, 2, variant=1), mkjob("loop", 8, 2, variant=2), mkjob("tchain", 8, 1, variant=3), mkjob("branch", 6, 2, variant=4),
                 mkjob("chain", 4, 2, periods=3, variant=5), mkjob("loop", 4, 2, periods=2, variant=0), mkjob("tchain", 4, 2, periods=3, variant=1),
                 mkjob("branch", 4, 2, periods=2, variant=2)]
 
